@@ -24,13 +24,19 @@ def run(prop, tier):
                 cases = [(1, 0, 0), (0, B[a] - 1, 0)]
             for (b, r, m) in cases:
                 jobs.append((xf, ["big", a, b, r, m], "big %d b=%d r=%d mode=%d" % (a, b, r, m)))
+            # the other places where a 32-bit byte or bit counter carries: 2^29 bytes = 2^32 bits, 2^31 bytes (sign bit / doubled length), three 1 GiB updates
+            more = [(0, 0, 0, 29, 20), (1, 0, 0, 29, 20), (0, 0, 1, 29, 28)]
+            if a not in SLOW:
+                more += [(0, 0, 0, 31, 20), (1, 0, 0, 31, 20), (0, 1 << 30, 1, 31, 30)]
+            for (b, r, m, lg, cl) in more:
+                jobs.append((xf, ["big", a, b, r, m, lg, cl], "big %d b=%d r=%d mode=%d 2^%d chunk 2^%d" % (a, b, r, m, lg, cl)))
     jobs.sort(key=lambda j: 0 if j[1][0] == "big" else 1)
     common.parallel(lambda j: common.run_harness(j[0], j[1], acc, "hash_enum " + j[2], timeout=7000, crash_prop=prop), jobs)
     s = acc.stats
     cov = dict(evaluations=s.get("evaluations", 0), distinct_nontrivial=s.get("nontrivial", 0),
                rule="per algorithm (11): one-shot digests for every length 0..5B+1; every split of every length 0..2B+1 into two updates (covers every (bytes buffered, chunk length) pair incl. exact fills, "
                     "multi-block chunks, padding boundaries); every three-way split for lengths B-1, B, B+1, 2B; every call sequence of depth <= %d over {update(0|1|B-1|B), reset, get_string, get_digest exact, "
-                    "get_digest one byte short}; thorough adds single updates of 2^32+r bytes arriving on b buffered bytes and a stream crossing 2^32 in 1 MiB chunks over a tiled virtual buffer. "
+                    "get_digest one byte short}; thorough adds single updates of 2^29, 2^31 and 2^32 (+r) bytes arriving on b buffered bytes, a stream crossing 2^32 in 1 MiB chunks and three 1 GiB updates, over a tiled virtual buffer. "
                     "Reference: GNU nettle (independent implementation of MD5, SHA-1, SHA-2, SHA-3, GOST R 34.11-94 CryptoPro). distinct non-trivial = distinct (buffered, chunk length) pairs + big inputs"
                     % (6 if tier == "quick" else 7),
                exhaustive=True, split_digests=s.get("split_digests", 0), call_sequences=s.get("call_sequences", 0), big_inputs=s.get("big_inputs", 0))
